@@ -87,6 +87,11 @@ type Case struct {
 	Msg     string     `json:"msg,omitempty"`
 	Entries []SchEntry `json:"entries,omitempty"`
 	Zs      []string   `json:"zs,omitempty"` // cancellation families: a coefficient pattern for which the batch sum cancels
+
+	// signatures made for the payload carrying THIS extra instead of Extra (payload tamper, old signatures kept)
+	SigExtra *string `json:"sig_extra,omitempty"`
+	// op memo: steps run one after the other in one process; the order is the point
+	Steps []Case `json:"steps,omitempty"`
 }
 
 type SchEntry struct {
@@ -130,6 +135,24 @@ func bigLE32(v *big.Int) []byte {
 }
 
 func newPriv(r *vh.Rand) crypto.Key { return crypto.NewKeyFromSeed(r.Bytes(64)) }
+
+// replayAs: while a history ("memo") case runs its steps, every failure and every model case
+// is recorded with the WHOLE history as its replay, because the order of the steps is the input.
+var replayAs any
+
+func fail(c *vh.Ctx, sig, what string, js any) {
+	if replayAs != nil {
+		js = replayAs
+	}
+	c.Fail(sig, what, js)
+}
+
+func emit(c *vh.Ctx, kind, key string, nontrivial bool, js any, coq string) {
+	if replayAs != nil {
+		js = replayAs
+	}
+	c.Case(kind, key, nontrivial, js, coq)
+}
 
 func decision(pan bool, err error) string {
 	if pan {
@@ -451,7 +474,11 @@ func runAuth(cs Case, extra []byte, sigExtra []byte, useSigExtra bool, mutate fu
 
 func runInputs(c *vh.Ctx, cs Case) {
 	extra, _ := hex.DecodeString(cs.Extra)
-	out, b, h, maps, ents, ag := runAuth(cs, extra, nil, false, nil)
+	var sigExtra []byte
+	if cs.SigExtra != nil {
+		sigExtra, _ = hex.DecodeString(*cs.SigExtra)
+	}
+	out, b, h, maps, ents, ag := runAuth(cs, extra, sigExtra, cs.SigExtra != nil, nil)
 	js, _ := json.Marshal(cs)
 	key := string(js)
 
@@ -505,8 +532,16 @@ func runInputs(c *vh.Ctx, cs Case) {
 			if i < len(cs.Inputs) && e.idx < len(b.pubs[i]) {
 				k := b.pubs[i][e.idx]
 				ok := k.Verify(h, *e.sig)
-				if ok {
+				// the oracle counts validity by the Ed25519 reference equation (keys here are
+				// honest prime-order keys), so it does not depend on the history of the code under test
+				ref := ed25519.Verify(ed25519.PublicKey(k[:]), h[:], e.sig[:])
+				if ref != ok {
+					fail(c, "verify-vs-reference", fmt.Sprintf("Key.Verify=%v, Ed25519 reference=%v (input %d index %d)", ok, ref, i, e.idx), cs)
+				}
+				if ref {
 					validIdx[i][e.idx] = true
+				}
+				if ok {
 					p := [2]int{vid(k), sid(*e.sig)}
 					if !vt[p] {
 						vt[p] = true
@@ -516,9 +551,9 @@ func runInputs(c *vh.Ctx, cs Case) {
 				// what the scenario says about this signature
 				sp := findSpec(cs.Inputs[i].Sigs, e.idx)
 				if sp != nil && sp.Raw == "" && sp.CopyOf == 0 {
-					honest := !sp.Other && sp.Tamper == 0 && sp.DS == "" && sp.DR == "" && b.privs[sp.Signer].Public() == k
+					honest := !sp.Other && sp.Tamper == 0 && sp.DS == "" && sp.DR == "" && cs.SigExtra == nil && b.privs[sp.Signer].Public() == k
 					if honest != ok {
-						c.Fail("verify-vs-scenario", fmt.Sprintf("Key.Verify=%v for a signature the scenario made honest=%v (input %d index %d)", ok, honest, i, e.idx), cs)
+						fail(c, "verify-vs-scenario", fmt.Sprintf("Key.Verify=%v for a signature the scenario made honest=%v (input %d index %d)", ok, honest, i, e.idx), cs)
 					}
 				}
 			}
@@ -537,7 +572,7 @@ func runInputs(c *vh.Ctx, cs Case) {
 		pan, _ := vh.Catch(func() { aggok = crypto.AggregateVerify(&ag.Signature, all, ag.Signers, h) == nil })
 		if pan {
 			aggok = false
-			c.Fail("aggregate-verify-panic", "crypto.AggregateVerify panicked", cs)
+			fail(c, "aggregate-verify-panic", "crypto.AggregateVerify panicked", cs)
 		}
 	}
 	txType := int64(cs.TxType)
@@ -565,20 +600,20 @@ func runInputs(c *vh.Ctx, cs Case) {
 	coq := vh.App("CInputs", vh.List(usT, "(Z * list (N * N) * list N)"), vh.List(sigsT, "(list (N * option N))"),
 		agT, vh.ZI(txType), vh.List(vtab, "(N * N)"), vh.Bool(aggok), resUnit(out.hook))
 	nontrivial := out.hook == "accept" || structOK
-	c.Case(cs.Kind, key, nontrivial, cs, coq)
+	emit(c, cs.Kind, key, nontrivial, cs, coq)
 	c.Count("hook-" + out.hook)
 	c.Count("validate-" + out.full)
 
 	// ---- oracle ----
 	if out.hook == "panic" || out.full == "panic" {
-		c.Fail("authorization-panic", "validateInputs/Validate panicked on a well-formed transaction object (hook="+out.hook+" full="+out.full+")", cs)
+		fail(c, "authorization-panic", "validateInputs/Validate panicked on a well-formed transaction object (hook="+out.hook+" full="+out.full+")", cs)
 		return
 	}
 	if b.aliased {
 		return // shared key pointers cannot come out of the store; model correspondence only
 	}
 	if out.full == "accept" && out.hook != "accept" {
-		c.Fail("full-accepts-without-authorization", "Validate accepted but validateInputs refused", cs)
+		fail(c, "full-accepts-without-authorization", "Validate accepted but validateInputs refused", cs)
 	}
 	accepted := out.hook == "accept"
 	anyPositive := false
@@ -589,7 +624,7 @@ func runInputs(c *vh.Ctx, cs Case) {
 			}
 			t, okf := scriptThreshold(in.Script)
 			if !okf {
-				c.Fail("accepted-malformed-script", fmt.Sprintf("input %d with script %s accepted", i, in.Script), cs)
+				fail(c, "accepted-malformed-script", fmt.Sprintf("input %d with script %s accepted", i, in.Script), cs)
 				continue
 			}
 			if t == 0 {
@@ -607,12 +642,12 @@ func runInputs(c *vh.Ctx, cs Case) {
 					n = len(validIdx[i]) // key list with repeated values: count positions (see report)
 				}
 				if n < t {
-					c.Fail("accepted-below-threshold", fmt.Sprintf("input %d threshold %d accepted with %d distinct own keys holding a valid signature", i, t, n), cs)
+					fail(c, "accepted-below-threshold", fmt.Sprintf("input %d threshold %d accepted with %d distinct own keys holding a valid signature", i, t, n), cs)
 				}
 				// every supplied entry must address an own key
 				for _, e := range ents[i] {
 					if e.idx >= len(b.pubs[i]) {
-						c.Fail("accepted-out-of-range-index", fmt.Sprintf("input %d map index %d >= %d keys", i, e.idx, len(b.pubs[i])), cs)
+						fail(c, "accepted-out-of-range-index", fmt.Sprintf("input %d map index %d >= %d keys", i, e.idx, len(b.pubs[i])), cs)
 					}
 				}
 			} else {
@@ -625,25 +660,25 @@ func runInputs(c *vh.Ctx, cs Case) {
 					seen[s] = true
 				}
 				if n < t {
-					c.Fail("accepted-below-threshold-aggregate", fmt.Sprintf("input %d threshold %d accepted with %d own signers", i, t, n), cs)
+					fail(c, "accepted-below-threshold-aggregate", fmt.Sprintf("input %d threshold %d accepted with %d own signers", i, t, n), cs)
 				}
 			}
 		}
 		if ag != nil && anyPositive {
 			if !sort.IntsAreSorted(ag.Signers) || hasDup(ag.Signers) {
-				c.Fail("accepted-unordered-signers", "aggregate accepted with signers not strictly increasing", cs)
+				fail(c, "accepted-unordered-signers", "aggregate accepted with signers not strictly increasing", cs)
 			}
 			for _, s := range ag.Signers {
 				if s < 0 || s >= len(owner) {
-					c.Fail("accepted-out-of-range-signer", fmt.Sprintf("signer %d of %d keys", s, len(owner)), cs)
+					fail(c, "accepted-out-of-range-signer", fmt.Sprintf("signer %d of %d keys", s, len(owner)), cs)
 				}
 			}
 			if !aggok {
-				c.Fail("accepted-invalid-aggregate", "accepted though crypto.AggregateVerify refuses the claimed signers", cs)
+				fail(c, "accepted-invalid-aggregate", "accepted though crypto.AggregateVerify refuses the claimed signers", cs)
 			}
-			honest := !cs.Agg.Other && cs.Agg.Tamper == 0 && sameSet(cs.Agg.Signers, cs.Agg.Actual)
+			honest := !cs.Agg.Other && cs.Agg.Tamper == 0 && cs.SigExtra == nil && sameSet(cs.Agg.Signers, cs.Agg.Actual)
 			if !honest {
-				c.Fail("accepted-forged-aggregate", "accepted an aggregate the scenario did not produce for these signers and this payload", cs)
+				fail(c, "accepted-forged-aggregate", "accepted an aggregate the scenario did not produce for these signers and this payload", cs)
 			}
 		}
 	}
@@ -662,7 +697,7 @@ func runInputs(c *vh.Ctx, cs Case) {
 			o2, _, _, _, _, _ := runAuth(cs, ex2, extra, true, nil)
 			c.Count("tamper-payload")
 			if o2.hook == "accept" || o2.full == "accept" {
-				c.Fail("tampered-payload-accepted", fmt.Sprintf("payload byte changed (extra %x), signatures kept: still accepted", ex2), cs)
+				fail(c, "tampered-payload-accepted", fmt.Sprintf("payload byte changed (extra %x), signatures kept: still accepted", ex2), cs)
 			}
 			// (b) a signature byte
 			pos, bit := tr.Intn(64), byte(1<<uint(tr.Intn(8)))
@@ -712,7 +747,7 @@ func runInputs(c *vh.Ctx, cs Case) {
 			if desc != "none" {
 				c.Count("tamper-signature")
 				if o3.hook == "accept" || o3.full == "accept" {
-					c.Fail("tampered-signature-accepted", desc+": still accepted", cs)
+					fail(c, "tampered-signature-accepted", desc+": still accepted", cs)
 				}
 			}
 		}
@@ -759,14 +794,14 @@ func runScript(c *vh.Ctx, cs Case) {
 	var err error
 	pan, _ := vh.Catch(func() { err = common.Script(s).Validate(cs.Sum) })
 	got := !pan && err == nil
-	c.Case("script", fmt.Sprintf("script|%s|%d", cs.Script, cs.Sum), got, cs,
+	emit(c, "script", fmt.Sprintf("script|%s|%d", cs.Script, cs.Sum), got, cs,
 		vh.App("CScript", vh.Bytes(s), vh.ZI(int64(cs.Sum)), vh.Bool(got)))
 	t, okf := scriptThreshold(cs.Script)
 	want := okf && cs.Sum >= t
 	if pan {
-		c.Fail("script-panic", "Script.Validate panicked", cs)
+		fail(c, "script-panic", "Script.Validate panicked", cs)
 	} else if got != want {
-		c.Fail("script-threshold", fmt.Sprintf("Script(%s).Validate(%d) accepted=%v, threshold rule says %v", cs.Script, cs.Sum, got, want), cs)
+		fail(c, "script-threshold", fmt.Sprintf("Script(%s).Validate(%d) accepted=%v, threshold rule says %v", cs.Script, cs.Sum, got, want), cs)
 	}
 }
 
@@ -1009,18 +1044,18 @@ func runVerify(c *vh.Ctx, cs Case) {
 		if o.modelled && !pan {
 			coq = vh.App("CVerify", vh.Z(o.a), vh.Z(o.r), vh.Z(o.s), vh.Z(o.k), vh.Bool(got))
 		}
-		c.Case("verify-"+cs.Entries[0].Mode, string(js), got, cs, coq)
+		emit(c, "verify-"+cs.Entries[0].Mode, string(js), got, cs, coq)
 		if pan {
-			c.Fail("verify-panic", "Key.Verify panicked", cs)
+			fail(c, "verify-panic", "Key.Verify panicked", cs)
 			return
 		}
 		ref := ed25519.Verify(ed25519.PublicKey(o.pub[:]), m[:], o.sig[:])
 		if ref != got && !laxMode(cs.Entries[0].Mode) { // the reference decoder is lax on purpose
-			c.Fail("verify-vs-reference", fmt.Sprintf("Key.Verify=%v, Ed25519 reference=%v", got, ref), cs)
+			fail(c, "verify-vs-reference", fmt.Sprintf("Key.Verify=%v, Ed25519 reference=%v", got, ref), cs)
 		}
 		want := (cs.Entries[0].Mode == "honest" || cs.Entries[0].Mode == "repo") && cs.Entries[0].DS == "" && cs.Entries[0].DR == ""
 		if got != want {
-			c.Fail("verify-vs-scenario", fmt.Sprintf("Key.Verify=%v on a %s signature", got, cs.Entries[0].Mode), cs)
+			fail(c, "verify-vs-scenario", fmt.Sprintf("Key.Verify=%v on a %s signature", got, cs.Entries[0].Mode), cs)
 		}
 		return
 	}
@@ -1057,14 +1092,14 @@ func runVerify(c *vh.Ctx, cs Case) {
 	if len(cs.Zs) > 0 {
 		kind = cs.Kind
 	}
-	c.Case(kind, string(js), got || len(cs.Zs) > 0, cs, coq)
+	emit(c, kind, string(js), got || len(cs.Zs) > 0, cs, coq)
 	if pan {
-		c.Fail("batch-panic", "crypto.BatchVerify panicked", cs)
+		fail(c, "batch-panic", "crypto.BatchVerify panicked", cs)
 		return
 	}
 	want := all && len(cs.Entries) > 0
 	if got != want {
-		c.Fail("batch-disagrees", fmt.Sprintf("BatchVerify=%v, conjunction of Verify=%v over %d entries", got, want, len(cs.Entries)), cs)
+		fail(c, "batch-disagrees", fmt.Sprintf("BatchVerify=%v, conjunction of Verify=%v over %d entries", got, want, len(cs.Entries)), cs)
 	}
 }
 
@@ -1086,9 +1121,9 @@ func runDupOut(c *vh.Ctx, cs Case) {
 	var err error
 	pan, _ := vh.Catch(func() { err = ver.Validate(b.st, 1700000000000000000, false) })
 	d := decision(pan, err)
-	c.Case("dupout", "dupout|"+cs.Privs[0], d == "reject", cs, "")
+	emit(c, "dupout", "dupout|"+cs.Privs[0], d == "reject", cs, "")
 	if d == "accept" {
-		c.Fail("output-with-repeated-key-accepted", "a transaction creating an output whose key list repeats a key was accepted", cs)
+		fail(c, "output-with-repeated-key-accepted", "a transaction creating an output whose key list repeats a key was accepted", cs)
 	}
 }
 
@@ -1123,14 +1158,73 @@ func runMixed(c *vh.Ctx, cs Case) {
 		pan, _ = vh.Catch(func() { err = ver.Validate(b.st, 1700000000000000000, false) })
 		d = decision(pan, err)
 	}
-	c.Case(cs.Kind, fmt.Sprintf("%s|%d|%s", cs.Kind, cs.Sum, cs.Privs[0]), d == "reject", cs, "")
+	emit(c, cs.Kind, fmt.Sprintf("%s|%d|%s", cs.Kind, cs.Sum, cs.Privs[0]), d == "reject", cs, "")
 	if d == "accept" {
-		c.Fail("script-input-spent-beside-"+cs.Kind, "a transaction spending a script input without signatures next to a mint/deposit input was accepted", cs)
+		fail(c, "script-input-spent-beside-"+cs.Kind, "a transaction spending a script input without signatures next to a mint/deposit input was accepted", cs)
+	}
+}
+
+// ---- crypto.AggregateVerify directly --------------------------------------------------------
+
+func runAggV(c *vh.Ctx, cs Case) {
+	mb, _ := hex.DecodeString(cs.Msg)
+	var m crypto.Hash
+	copy(m[:], mb)
+	var privs []crypto.Key
+	var pubs []*crypto.Key
+	for _, p := range cs.Privs {
+		k := keyFromHex(p)
+		privs = append(privs, k)
+		pub := k.Public()
+		pubs = append(pubs, &pub)
+	}
+	ag := cs.Agg
+	msg := m
+	if ag.Other {
+		msg = crypto.Blake3Hash(append([]byte("other"), m[:]...))
+	}
+	seed, _ := hex.DecodeString(ag.Seed)
+	var sk []*crypto.Key
+	for _, a := range ag.Actual {
+		k := privs[a]
+		sk = append(sk, &k)
+	}
+	sig, err := crypto.AggregateSign(sk, pubs, ag.Actual, seed, msg)
+	if err != nil {
+		panic(err)
+	}
+	if ag.Tamper > 0 {
+		sig[(ag.Tamper-1)%64] ^= byte(ag.Xor | 1)
+	}
+	var got bool
+	pan, _ := vh.Catch(func() { got = crypto.AggregateVerify(sig, pubs, ag.Signers, m) == nil })
+	js, _ := json.Marshal(cs)
+	emit(c, cs.Kind, string(js), got, cs, "")
+	want := !ag.Other && ag.Tamper == 0 && sameSet(ag.Signers, ag.Actual)
+	if pan {
+		fail(c, "aggregate-verify-panic", "crypto.AggregateVerify panicked", cs)
+	} else if got != want {
+		fail(c, "aggregate-verify-vs-scenario", fmt.Sprintf("AggregateVerify accepted=%v for an aggregate the scenario made honest=%v (%s)", got, want, cs.Kind), cs)
+	}
+}
+
+// ---- histories: the same keys / transactions presented several times in one process ---------
+
+func runMemo(c *vh.Ctx, cs Case) {
+	replayAs = cs
+	defer func() { replayAs = nil }()
+	c.Count(cs.Kind)
+	for _, st := range cs.Steps {
+		run(c, st)
 	}
 }
 
 func run(c *vh.Ctx, cs Case) {
 	switch cs.Op {
+	case "memo":
+		runMemo(c, cs)
+	case "aggv":
+		runAggV(c, cs)
 	case "mixed":
 		runMixed(c, cs)
 	case "inputs":
@@ -1154,7 +1248,9 @@ func main() {
 		"out-of-range entries, missing maps; aggregate signatures over random signer subsets with unsorted/duplicate/out-of-range/superset/subset claims; " +
 		"forced transaction types and non-script UTXO types through the hook; a script input beside a mint/deposit input; outputs repeating a key; " +
 		"Script.Validate; Verify/BatchVerify entries with known discrete logs plus small-order, mixed-order and non-canonical encodings. " +
-		"linear-cancellation families (s_i+d_i or R_i+d_i*B with the d_i cancelling for equal / period-2 / small guessed batch coefficients), through BatchVerify and through Validate on multisig inputs. " +
+		"linear-cancellation families (s_i+d_i or R_i+d_i*B with the d_i cancelling for equal / period-2 / small guessed batch coefficients), through BatchVerify and through Validate on multisig inputs; " +
+		"histories in one process (genuine transaction / signature 1-3 times, then every single-signature, payload and signer-list tamper each followed by the " +
+		"genuine one again, and the control order tampered-first), through Validate and through Verify/BatchVerify/AggregateVerify. " +
 		"Non-trivial = the structural stage passed (signature verification was reached) or the case was accepted; distinct by the whole scenario."
 	if c.Replay != "" {
 		var cs Case
